@@ -1406,10 +1406,9 @@ theorem capitalize_flatten_head (ps : List Name) :
 /-- `str_to_pascal_case` is idempotent (every name) -/
 theorem pascal_idem (s : Name) : pascal (pascal s) = pascal s := by
   have h := splitU_of_no_underscore (pascal_no_underscore s)
-  conv => lhs; unfold pascal
-  rw [h]
+  have e : pascal (pascal s) = ((splitU (pascal s)).map capitalize).flatten := rfl
+  rw [e, h]
   simp only [List.map_cons, List.map_nil, List.flatten_cons, List.flatten_nil, List.append_nil]
-  unfold pascal
   exact capitalize_flatten_head _
 
 theorem lower_alnum_capitalize (p : Name) : lower (alnum (capitalize p)) = lower (alnum p) := by
